@@ -99,10 +99,16 @@ TrExecReject ==      \* Model.execute(n) with a non-integer or non-positive n
     /\ UNCHANGED vars
     /\ ObsOK(Ev.obs, reg', clock', status')
 
+\* model.systems[id] / model.systems[(id, True)]   (growth beyond the listed properties: exercised by `./check drift` only)
+TrLookupSystem ==
+    /\ Ev.op = "lookup_system" /\ UNCHANGED vars
+    /\ IF Ev.id \in DOMAIN reg THEN Ev.out = "ok" /\ Obj(Ev.res) = reg[Ev.id].obj
+       ELSE IF Ev.strict THEN Ev.out = "KeyError" ELSE Ev.out = "ok" /\ Obj(Ev.res) = <<"None", 0>>
+
 TraceInit == /\ Init /\ tid \in 1..Len(Traces) /\ l = 1 /\ dev = {}
 
 TraceNext == /\ l <= Len(Traces[tid]) /\ l' = l + 1 /\ UNCHANGED <<tid, dev>>
-             /\ (TrAdd \/ TrRemove \/ TrComplete \/ TrExecBegin \/ TrRun \/ TrExecEnd \/ TrExecReject)
+             /\ (TrAdd \/ TrRemove \/ TrComplete \/ TrExecBegin \/ TrRun \/ TrExecEnd \/ TrExecReject \/ TrLookupSystem)
 
 TraceSpec == TraceInit /\ [][TraceNext]_tvars
 
